@@ -36,6 +36,139 @@ def _allowed_sets(c02, g, pd, tol, vals):
     return [c02.allowed_val(g, pd, tol, True, x) for x in vals]
 
 
+def round7_classes(ctx, c02, g, tag):
+    """Input classes of round 7 on the magnitude call sites of one grid (float64 edges), every index judged by the exact oracle:
+    (j) a USER CATALOG SUBCLASS that overrides the documented accessor get_magnitudes() (it stores magnitude - 1 and converts back): the
+        accessor is the source of truth for get_mag_idx / magnitude_counts (region edges and explicit edges) / spatial_magnitude_counts;
+    (h) COPIES BEFORE USE: deepcopy / pickle image of the catalog, of the forecast and of the region carrying the edges;
+    (i) STATE AFTER A CAUGHT EXCEPTION: a rejected call first (magnitude below the first edge, decreasing edges), then the legal one on
+        the same objects;
+    (k) GLOBAL NUMERIC STATE: numpy.errstate(divide='raise', invalid='raise') and decimal.localcontext(prec 2..6) around the calls;
+    (m) DEGENERATE COUNTS: catalogs of 0, 1 and 2 events; a ONE-edge grid with one event below and one above the edge."""
+    import copy, pickle, decimal
+    run, rng = ctx.run, ctx.rng
+    from csep.core.catalogs import CSEPCatalog
+    from csep.core.forecasts import GriddedForecast
+    from csep.core import regions
+    from csep.utils.calc import bin1d_vec, discretize
+    if g.n < 2 or g.bd != "f64" or not g.premise("f64", None):
+        return
+    mags = _mags_for(c02, g, rng, None)
+    mags = numpy.array([float(x) for x in mags if numpy.isfinite(x) and abs(float(x)) < 1e12])[:80]
+    # the user class converts: stored = m - 1, accessor returns stored + 1 (kept where that is exact)
+    mags = numpy.array([m for m in mags if (m - 1.0) + 1.0 == m])
+    if len(mags) == 0:
+        return
+    al = _allowed_sets(c02, g, "f64", None, mags)
+    case0 = dict(kind="calls", grid=g.spec, tol=None, tag=tag + "-round7", what="round7", p=[repr(float(x)) for x in mags[:6]])
+    run.count("round7_call_site_grids")
+
+    class ConvertedCatalog(CSEPCatalog):
+        """keeps another magnitude in its `magnitude` column and returns the converted one from the documented accessor"""
+        def get_magnitudes(self):
+            return self.catalog["magnitude"] + 1.0
+
+    def judge(what, idx, vals=mags, sets=al):
+        idx = numpy.asarray(idx)
+        if idx.shape != (len(vals),):
+            run.oracle_failure(dict(case0, what=what), f"{what}: shape {idx.shape} for {len(vals)} magnitudes")
+            return False
+        for x, i, a in zip(vals, idx, sets):
+            if int(i) not in a:
+                run.oracle_failure(dict(case0, what=what, p=[repr(float(x))]), f"{what}: index {int(i)} for magnitude {float(x)!r}; the property allows {sorted(a)}")
+                return False
+        return True
+
+    def judge_counts(what, cnt, vals=mags, sets=al, n=g.n):
+        cnt = numpy.asarray(cnt, dtype=float)
+        lo, hi = numpy.zeros(n), numpy.zeros(n)
+        for a in sets:
+            for k in a:
+                if k >= 0:
+                    hi[k] += 1
+            if len(a) == 1 and min(a) >= 0:
+                lo[min(a)] += 1
+        if cnt.shape != (n,) or numpy.any(cnt < lo) or numpy.any(cnt > hi):
+            run.oracle_failure(dict(case0, what=what), f"{what} = {cnt.tolist()[:12]}…; per bin between {lo.tolist()[:12]} and {hi.tolist()[:12]}")
+            return False
+        return True
+    try:
+        reg = regions.create_space_magnitude_region(regions.CartesianGrid2D.from_origins(numpy.array([[0., 0.], [0.1, 0.]]), dh=0.1), g.bins)
+        rows = lambda vals: [(str(i), 1000 * i, 0.05, 0.05, 0.0, float(m)) for i, m in enumerate(vals)]
+        # ---- (j)
+        uc = ConvertedCatalog(data=rows(mags - 1.0), region=reg)
+        if not numpy.array_equal(numpy.asarray(uc.get_magnitudes()), mags):
+            raise RuntimeError("harness: the subclass accessor does not return the intended magnitudes")
+        ok = judge("user subclass (get_magnitudes overridden): get_mag_idx", uc.get_mag_idx()) and \
+            judge_counts("user subclass: magnitude_counts() with the region's edges", uc.magnitude_counts()) and \
+            judge_counts("user subclass: magnitude_counts(mag_bins=edges)", uc.magnitude_counts(mag_bins=g.bins))
+        inr0 = [k for k, a in enumerate(al) if -1 not in a]       # spatial_magnitude_counts rejects a magnitude below the first edge
+        if ok and inr0:
+            ucin = ConvertedCatalog(data=rows(mags[inr0] - 1.0), region=reg)
+            smc = numpy.asarray(ucin.spatial_magnitude_counts(mag_bins=g.bins), dtype=float)
+            ok = smc.ndim == 2 and judge_counts("user subclass: spatial_magnitude_counts (cell 0)", smc[0], mags[inr0], [al[k] for k in inr0])
+        if not ok:
+            return
+        # ---- (h)
+        cat = CSEPCatalog(data=rows(mags), region=reg)
+        fore = GriddedForecast(data=numpy.ones((2, g.n)), region=reg, magnitudes=g.bins)
+        inr = [k for k, a in enumerate(al) if -1 not in a]
+        for fname, f in (("copy.deepcopy", copy.deepcopy), ("pickle round trip", lambda x: pickle.loads(pickle.dumps(x))), ("copy.copy", copy.copy)):
+            c2, f2 = f(cat), f(fore)
+            c3 = CSEPCatalog(data=rows(mags), region=f(reg))
+            if not (judge(f"{fname} of the catalog: get_mag_idx", c2.get_mag_idx()) and
+                    judge_counts(f"{fname} of the catalog: magnitude_counts()", c2.magnitude_counts()) and
+                    judge(f"catalog bound to the {fname} of the region: get_mag_idx", c3.get_mag_idx())):
+                return
+            if inr and not judge(f"{fname} of the forecast: get_magnitude_index", f2.get_magnitude_index(mags[inr]), mags[inr], [al[k] for k in inr]):
+                return
+        # ---- (i)
+        below = float(g.e64[0]) - 0.5 * float(g.hF)
+        for bad in (lambda: fore.get_magnitude_index([below]), lambda: discretize(numpy.array([below]), g.bins),
+                    lambda: bin1d_vec([1.0], [3.0, 2.0, 1.0]), lambda: cat.magnitude_counts(mag_bins=[])):
+            try:
+                bad()
+            except Exception:
+                pass
+        if inr and not judge("get_magnitude_index after a rejected call on the same forecast", fore.get_magnitude_index(mags[inr]), mags[inr], [al[k] for k in inr]):
+            return
+        if not (judge("get_mag_idx after rejected calls", cat.get_mag_idx()) and
+                judge("bin1d_vec after a rejected (decreasing) grid", bin1d_vec(mags, g.bins, right_continuous=True))):
+            return
+        # ---- (k)
+        with decimal.localcontext() as dctx:
+            dctx.prec = rng.choice([2, 3, 4, 5, 6])
+            with numpy.errstate(divide="raise", invalid="raise"):
+                a1, a2, a3 = cat.get_mag_idx(), cat.magnitude_counts(), (fore.get_magnitude_index(mags[inr]) if inr else [])
+                a4 = bin1d_vec(mags, g.bins, right_continuous=False)
+        if not (judge("get_mag_idx under numpy.errstate(raise) / a lowered decimal context", a1) and
+                judge_counts("magnitude_counts under numpy.errstate(raise) / a lowered decimal context", a2)):
+            return
+        if inr and not judge("get_magnitude_index under numpy.errstate(raise) / a lowered decimal context", a3, mags[inr], [al[k] for k in inr]):
+            return
+        if not judge("bin1d_vec (closed) under numpy.errstate(raise)", a4, mags, [c02.allowed_val(g, "f64", None, False, x) for x in mags]):
+            return
+        # ---- (m)
+        for cnt_ev in (0, 1, 2):
+            ce = CSEPCatalog(data=rows(mags[:cnt_ev]), region=reg)
+            if not (judge(f"get_mag_idx of a catalog of {cnt_ev} events", ce.get_mag_idx(), mags[:cnt_ev], al[:cnt_ev]) and
+                    judge_counts(f"magnitude_counts of a catalog of {cnt_ev} events", ce.magnitude_counts(), mags[:cnt_ev], al[:cnt_ev])):
+                return
+        e0 = float(g.e64[1])
+        one = numpy.array([e0])
+        two = CSEPCatalog(data=rows([e0 - 0.5 * float(g.hF), e0 + 0.5 * float(g.hF)]), region=reg)
+        c1 = numpy.asarray(two.magnitude_counts(mag_bins=one), dtype=float)
+        if c1.shape != (1,) or float(c1[0]) != 1.0:
+            run.oracle_failure(dict(case0, what="one-edge grid"), f"magnitude_counts(mag_bins=[{e0!r}]) of one event below and one above the edge is {c1.tolist()} (expected [1.0])")
+            return
+        run.evaluations += 20
+    except RuntimeError:
+        raise
+    except Exception as e:
+        import traceback
+        run.oracle_failure(dict(case0, what="round7"), f"{type(e).__name__}: {str(e)[:160]} | {traceback.format_exc().splitlines()[-3].strip()[:140]}")
+
+
 def check_calls_on_grid(ctx, c02, g, tag):
     """one grid (float64 edges): all call sites, several tolerances"""
     run, rng = ctx.run, ctx.rng
@@ -45,6 +178,7 @@ def check_calls_on_grid(ctx, c02, g, tag):
     if g.n == 0 or g.bd != "f64":
         return
     base_reg = regions.CartesianGrid2D.from_origins(numpy.array([[0., 0.], [0.1, 0.]]), dh=0.1)
+    round7_classes(ctx, c02, g, tag)
     for tol in rng.sample(TOLS, 3):
         if not g.premise("f64", tol):
             run.count("calls_premise_not_met_skipped")
